@@ -191,7 +191,11 @@ func checkC03(tier, replay string) int {
 	}
 	runS3Big(r, x)
 	runS3Mixed(r)
-	r.finish(fmt.Sprintf("all policies of scope S3: entry sequences of <=3 entries over 3 syscalls (numbers 0,1,59 on x86_64), entries unconditional or with a list of 1-2 conditions (arg in {0,1} x 8 operations x operands {nr(n1), nr(n2), 2^32+nr(n2)} chosen to collide with other entries' syscall numbers), same syscall repeated (merged OR lists) and repeated arguments included, in one group or split over two groups at every point, 2 defaults; plus S3big (lists of up to 3 conditions, repeats) and S3mixed (groups of 1..100 unconditional names around powers of two together with conditional entries numbered below, inside and above their range, on all four architectures); each compiled by the real compiler and run on every cell of the exact partition (nr x arch x all argument words); tier %s bounds are in the scope labels of the samples; non-trivial = >= 2 distinct decisions", tier))
+	runS3Pairs(r, x, tier)
+	if tier != "quick" {
+		runS3Pairs(r, arm, tier)
+	}
+	r.finish(fmt.Sprintf("all policies of scope S3: entry sequences of <=3 entries over 3 syscalls (numbers 0,1,59 on x86_64), entries unconditional or with a list of 1-2 conditions (arg in {0,1} x 8 operations x operands {nr(n1), nr(n2), 2^32+nr(n2)} chosen to collide with other entries' syscall numbers), same syscall repeated (merged OR lists) and repeated arguments included, in one group or split over two groups at every point, 2 defaults; plus S3big (lists of up to 3 conditions, repeats) S3pairs (every ordered pair of single-condition entries for one syscall over arguments {0,1,5} x 8 operations x operands {0, 1, nr, 2^32, 2^32+nr, 2^58, 2^61, 2^63, 2^64-1}, i.e. operands whose set bits reach into every byte of the word, followed by an entry for another syscall; masks and order constants never meet on one word) and S3mixed (groups of 1..100 unconditional names around powers of two together with conditional entries numbered below, inside and above their range, on all four architectures); each compiled by the real compiler and run on every cell of the exact partition (nr x arch x all argument words); tier %s bounds are in the scope labels of the samples; non-trivial = >= 2 distinct decisions", tier))
 	ctx.Assumptions = []string{"reference decision function refsem.Decide is the statement of C03", "cell partition soundness argument of DESIGN 2.4"}
 	return ctx.Finish()
 }
@@ -294,4 +298,42 @@ func runS3Mixed(r *compileRun) {
 			r.one("S3mixed/"+a.Name, a, p, engine.Options{})
 		})
 	}
+}
+
+// runS3Pairs: two entries for the same syscall, one condition each, over a wide operand alphabet (every pair that the
+// exact partition can handle: a mask and an order constant never on the same argument word).
+func runS3Pairs(r *compileRun, a *refsem.Arch, tier string) {
+	n := s3Names(a)
+	n2 := uint64(mustNum(a, n[2]))
+	var alpha []seccomp.Condition
+	for _, arg := range []uint32{0, 1, 5} {
+		for _, op := range allOps {
+			for _, v := range []uint64{0, 1, n2, 1 << 32, 1<<32 + n2, 1 << 58, 1 << 61, 1 << 63, ^uint64(0)} {
+				alpha = append(alpha, seccomp.Condition{Argument: arg, Operation: op, Value: v})
+			}
+		}
+	}
+	isMask := func(c seccomp.Condition) bool { return c.Operation == seccomp.BitsSet || c.Operation == seccomp.BitsNotSet }
+	type pr struct{ i, j int }
+	var jobs []pr
+	for i, ci := range alpha {
+		for j, cj := range alpha {
+			if ci.Argument == cj.Argument && isMask(ci) != isMask(cj) {
+				continue
+			}
+			if ci.Argument == cj.Argument && isMask(ci) && ci.Value != cj.Value && ci.Value&cj.Value != 0 && ci.Value != ^uint64(0) && cj.Value != ^uint64(0) {
+				continue
+			}
+			jobs = append(jobs, pr{i, j})
+		}
+	}
+	parallelFor(len(jobs), func(x int) {
+		j := jobs[x]
+		g := seccomp.SyscallGroup{Action: seccomp.ActionErrno, NamesWithCondtions: []seccomp.NameWithConditions{
+			{Name: n[1], Conditions: seccomp.ArgumentConditions{alpha[j.i]}},
+			{Name: n[1], Conditions: seccomp.ArgumentConditions{alpha[j.j]}},
+			{Name: n[2], Conditions: seccomp.ArgumentConditions{alpha[(j.i+j.j)%len(alpha)]}}}}
+		p := &seccomp.Policy{DefaultAction: seccomp.ActionAllow, Syscalls: []seccomp.SyscallGroup{g, {Action: seccomp.ActionTrap, Names: []string{n[1]}}}}
+		r.one("S3pairs/"+a.Name, a, p, engine.Options{})
+	})
 }
